@@ -606,6 +606,36 @@ fn main() {
     run.assumptions.push("SparseCoo::verif_parts (feature verif) returns the matrix fields unchanged".into());
 
     let subs: Vec<Subject> = cfgs.iter().filter_map(|c| build(&mut run, c)).collect();
+    // long texts: symbol counts around the powers of two a size threshold would sit at; every
+    // tokenisation alone, and batched with a short and with another long text (padding)
+    {
+        let lens = tu_verif::enumerate::threshold_lengths(run.pick(8, 10));
+        run.bounds.insert("long_phase".into(), json!(format!("symbol counts {lens:?} x 4 repeated patterns x every config x ignore_special_tokens; each alone, with a one-symbol text and with the next pattern")));
+        for (k, n) in lens.iter().enumerate() {
+            if !run.unit(units + k as u64) {
+                continue;
+            }
+            let texts: Vec<String> = [&["a"][..], &["a", "ä", "😀"][..], &["<pad>", "a", "\u{301}"][..], &["\r", "\n", "a"][..]].iter().map(|p| tu_verif::enumerate::repeat_symbols(p, *n)).collect();
+            for sub in &subs {
+                for ign in [false, true] {
+                    let items: Vec<Item> = texts.iter().filter_map(|s| {
+                        run.evaluations += 1;
+                        check_tokenisation(&mut run, sub, s, ign)
+                    }).collect();
+                    let short = check_tokenisation(&mut run, sub, "ä", ign);
+                    for (i, item) in items.iter().enumerate() {
+                        check_batch(&mut run, sub, &[item]);
+                        if let Some(sh) = &short {
+                            check_batch(&mut run, sub, &[item, sh]);
+                            check_batch(&mut run, sub, &[sh, item]);
+                        }
+                        check_batch(&mut run, sub, &[item, &items[(i + 1) % items.len()]]);
+                    }
+                }
+            }
+            run.tick();
+        }
+    }
     let (mut multi_id_groups, mut nested_groups) = (0u64, 0u64);
     for unit in 0..units {
         if !run.unit(unit) {
